@@ -20,7 +20,7 @@ NA = {
 }
 
 PENDING = {k: 'applicable to this technique (see DESIGN.md section 3) but its check is not built yet in this revision; not claimed until it is quiet and sensitive'
-           for k in ('C04', 'C10', 'C19')}
+           for k in ('C04', 'C10')}
 
 CHECKS = {
  'C05': dict(
@@ -81,6 +81,18 @@ CHECKS = {
     note='Trusts: pre-emption granularity is a Python line inside pyasn1 frames (races inside one bytecode are out of reach and, under the GIL, '
          'not the library\'s concern); snapshot compares public observables modulo lazy instantiation of DEFAULT/OPTIONAL slots. Sampling of schedules, not enumeration.',
     technique='deterministic simulation: seeded interleaving of suspended generators and baton-passed real threads (sys.settrace), differential against isolated execution plus state snapshots'),
+ 'C19': dict(
+    engine='history-world', category='exploration', design_ref='DESIGN.md section 3 (C19) and appendix B',
+    text='Seeded operation histories (5-30 operations: mutators, readers, ill-formed operations as injected faults, in-place mutation of nested '
+         'members, clone with both objects kept under check) over SEQUENCE OF/SET OF (with and without component type), SEQUENCE/SET with declared '
+         'fields, CHOICE and valueless scalars; after every step the object is compared with a Python list/dict reference model (content, length, '
+         'value-versus-schema status, DER against a freshly built object), readers must leave every observable unchanged, ill-formed operations '
+         'must raise a lookup/library error and change nothing, a CHOICE never holds two alternatives.',
+    note='Trusts: the operation semantics fixed from the docstrings in univ.py (appendix B); observation uses non-instantiating accessors only; '
+         'an absent DEFAULT component equals the default value; the encoding of a non-value is not asserted. No concurrency is involved: the '
+         'schedule is the operation history and the faults are ill-formed operations. Open findings F9a (far index accepted, test-pinned), '
+         'F9g (slice assignment is not list-style), F9f (== on constructed values) are classified by (invariant, operation kind).',
+    technique='deterministic simulation, sequential end of the family: seeded operation/fault histories checked step by step against an executable reference model, delta-debugged replay'),
 }
 
 
